@@ -32,6 +32,8 @@ FIXED = [
   'git::https://h/org/repo/%2Fテ/x.tf normalised to a package path containing "//" and parsed back as package + sub-path'),
  ("C10", "offender-accepted", "fix: refuse a symlink with an absolute target in a fetched package",
   'a fetched package with a symlink whose absolute target names a file inside the temporary directory the package is prepared in passed all checks; after the directory was renamed to its final name the finished bundle held a dangling link although the build reported no error'),
+ ("C05", "entry-name-leaves-archive-root", "fix: walk a dereferenced directory by its real path",
+  'Pack with DereferenceSymlinks of a tree holding a link to an outside directory whose absolute target is spelled with redundant elements ("/w/outside/./././dir") gave entries named "../outside/dir/emptydir/": names below the link were wrong, and the slug was refused by Unpack'),
 ]
 
 FIXED += [
